@@ -74,7 +74,9 @@ def build(prop, plan, race=False):
         sys.exit(2)
     for need in plan.get("needs", []):
         o = os.path.join(ROOT, ".build", need + tag)
-        r = subprocess.run(["go", "build", "-tags", "verif", "-o", o] + (["-modfile=" + mod] if mod else []) + ["./cmd/" + need], cwd=ROOT, env=env_base(),
+        # "seqdb" is the real executable of the repository under test, everything else a helper of this module
+        pkg = "github.com/ozontech/seq-db/cmd/seq-db" if need == "seqdb" else "./cmd/" + need
+        r = subprocess.run(["go", "build", "-tags", "verif", "-o", o] + (["-modfile=" + mod] if mod else []) + [pkg], cwd=ROOT, env=env_base(),
                            capture_output=True, text=True)
         if r.returncode != 0:
             log("BUILD FAILED (inconclusive):\n" + r.stdout + r.stderr)
